@@ -7,6 +7,7 @@ import EaselModel.Sqio.WindowTotal
 import EaselModel.Sqio.EmblTotal
 import EaselModel.Sqio.EmblTotalAll
 import EaselModel.Sqio.MsaSeqMode
+import EaselModel.Sqio.MsaSeqWindow
 /-! # C02 — sequence-file input is total: any bytes give a normal outcome
 
 Property theorems only (proofs are glue on `Sqio/Refine.lean`, `Sqio/NoFault.lean`).
@@ -320,6 +321,52 @@ theorem msa_rev_window_coords (n0 start0 end0 L C W : Int) (hL : 0 ≤ L) (hC : 
     ((revCoords n0 start0 end0 L C W).2.2.2.2 ≠ 0 →
       RevState (revCoords n0 start0 end0 L C W).2.2.2.1 (revCoords n0 start0 end0 L C W).2.2.1 (revCoords n0 start0 end0 L C W).2.1 L) :=
   revCoords_spec n0 start0 end0 L C W hL hC hW hs
+
+open EaselModel.Sqio.MsaSeq EaselModel.Msafile in
+/-- **`sqascii_ReadWindow` on an alignment file is total, for every byte string, both strands, from every consistent window state**: the
+    caller's `ESL_SQ` is fresh (after `esl_sq_Reuse` / `eslEOD`) or holds the previous window of the row being read (`FwdState` /
+    `RevState`; on the reverse strand `sq->L` is the row's length, as the forward `eslEOD` left it; a digital reverse strand needs an
+    alphabet with a complement: DNA or RNA). Then the call answers `eslOK` with a well-formed window (`n = C' + W'`, `0 ≤ C' ≤ C`,
+    `1 ≤ W' ≤ |W|`, strings and residues inside their allocations) AND a state the next call accepts (so the statement holds along
+    every series of windows), `eslEOD` with an empty record carrying `L ≥ 0`, `eslEOF`, `eslEFORMAT` with a message, or - reverse strand
+    of a text-mode sequence holding a symbol that is not nucleic - `eslEINVAL` with a message. Never a fault (the slice copied from the
+    row lies inside it; every digital code is inside the complement table), no exception, handle invariant kept. -/
+theorem msa_readWindow_total (h : MsaH) (sq : Sq) (C W : Int) (hi : Inv h) (hm : ModeOk h.o) (hsq : sq.digital = h.o.abc.isSome)
+    (hC : 0 ≤ C) (hW0 : W ≠ 0) (hidx : 0 ≤ (adjIdx h sq W).idx)
+    (hcomp : W < 0 → sq.digital = true → (sq.abc = 1 ∧ h.o.abc = some .dna) ∨ (sq.abc = 2 ∧ h.o.abc = some .rna))
+    (hstate : ∀ t, (nextRow (adjIdx h sq W)).2.1 = some t →
+        (0 < W → FwdState sq.n sq.start sq.end_ t.L) ∧ (W < 0 → RevState sq.n sq.start sq.end_ sq.L ∧ sq.L = t.L)) :
+    Inv (MsaSeq.readWindow h sq C W).1 ∧ (MsaSeq.readWindow h sq C W).1.o = h.o ∧ (MsaSeq.readWindow h sq C W).1.exc = h.exc ∧
+    (((MsaSeq.readWindow h sq C W).2.2 = .ok ∧ (MsaSeq.readWindow h sq C W).2.1.digital = sq.digital ∧
+        (∃ c w, WinWF c w (MsaSeq.readWindow h sq C W).2.1 ∧ 0 ≤ c ∧ c ≤ C ∧ 1 ≤ w ∧ (0 < W → w ≤ W) ∧ (W < 0 → w ≤ -W)) ∧
+        (∃ t, (nextRow (adjIdx h sq W)).2.1 = some t ∧
+          (0 < W → FwdState (MsaSeq.readWindow h sq C W).2.1.n (MsaSeq.readWindow h sq C W).2.1.start (MsaSeq.readWindow h sq C W).2.1.end_ t.L) ∧
+          (W < 0 → RevState (MsaSeq.readWindow h sq C W).2.1.n (MsaSeq.readWindow h sq C W).2.1.start (MsaSeq.readWindow h sq C W).2.1.end_
+                      (MsaSeq.readWindow h sq C W).2.1.L ∧ (MsaSeq.readWindow h sq C W).2.1.L = t.L))) ∨
+     ((MsaSeq.readWindow h sq C W).2.2 = .eod ∧ (MsaSeq.readWindow h sq C W).2.1.seq = #[] ∧ (MsaSeq.readWindow h sq C W).2.1.start = 0 ∧
+        (MsaSeq.readWindow h sq C W).2.1.end_ = 0 ∧ 0 ≤ (MsaSeq.readWindow h sq C W).2.1.L) ∨
+     (MsaSeq.readWindow h sq C W).2.2 = .eof ∨
+     ((MsaSeq.readWindow h sq C W).2.2 = .eformat ∧ (MsaSeq.readWindow h sq C W).1.haveErr = true) ∨
+     (W < 0 ∧ sq.digital = false ∧ (MsaSeq.readWindow h sq C W).2.2 = .einval ∧ (MsaSeq.readWindow h sq C W).1.haveErr = true)) :=
+  MsaSeq.readWindow_total h sq C W hi hm hsq hC hW0 hidx hcomp hstate
+
+open EaselModel.Sqio.MsaSeq EaselModel.Msafile in
+/-- non-vacuity of the window hypotheses on the executable model (`# STOCKHOLM 1.0\ns1 ACGU-ACGUAC\n//\n`, RNA): the fresh `ESL_SQ` is a
+    forward state; the first window of 4 holds `ACGU`; after `eslEOD` the first reverse window `C=0 W=-3` holds residues `10..8`
+    reverse-complemented (`G U A` = codes 2 3 0) with no context and 3 new residues - the retired finding's witness -/
+example :
+    let file : Sqio.Bytes := (str "# STOCKHOLM 1.0\ns1 ACGU-ACGUAC\n//\n").toArray
+    ∃ h, (openMsa file (str "t.sto") (.decl .stockholm) 2).1 = some h ∧
+      (MsaSeq.readWindow h (freshSq 2) 0 4).2.2 = .ok ∧ (MsaSeq.readWindow h (freshSq 2) 0 4).2.1.seq = #[0, 1, 2, 3] ∧
+      (let r1 := MsaSeq.readWindow h (freshSq 2) 0 100
+       let r2 := MsaSeq.readWindow r1.1 r1.2.1 0 100
+       let r3 := MsaSeq.readWindow r2.1 r2.2.1 0 (-3)
+       r2.2.2 = .eod ∧ r3.2.2 = .ok ∧ r3.2.1.seq = #[2, 3, 0] ∧ r3.2.1.start = 10 ∧ r3.2.1.end_ = 8 ∧ r3.2.1.C = 0 ∧ r3.2.1.W = 3) := by
+  decide +kernel
+
+open EaselModel.Sqio.MsaSeq in
+example : FwdState (freshSq 2).n (freshSq 2).start (freshSq 2).end_ 10 ∧ RevState (freshSq 2).n (freshSq 2).start (freshSq 2).end_ 10 :=
+  ⟨Or.inl ⟨rfl, rfl, rfl⟩, Or.inl ⟨rfl, rfl, rfl⟩⟩
 
 open EaselModel.Sqio.MsaSeq in
 /-- the arithmetic before the repair at the retired finding's witness (fresh state after `eslEOD`, `L = 10`, `C = 0`, `W = -3`):
